@@ -1,10 +1,20 @@
 """Property registry: Lean obligations and correspondence streams per property."""
 import os
 
-from . import core, gen_enc
+from . import core, gen_enc, gen_dec
 from .runner import Spec
 
 SPECS = {}
+NOT_CLAIMED = {}
+DEFAULT_NOTE = ("Trusted: Lean 4.33 kernel; axioms propext, Classical.choice, Quot.sound; the compiled driver computes what the definitions denote; "
+                "the correspondence check (C++ harness over the real library built from /repo with ASan+UBSan, Python generators/differ) is what ties the "
+                "hand-written model to the code - it samples, so a divergence outside the generated inputs is not seen; protocol tables written from the "
+                "standard, not present in the sandbox; C++ object lifetime and aliasing are modelled by immutable values.")
+LEVEL_NOTE = {}
+LEVEL_TEXT = {
+    "C09": "Theorems C09_encode / C09_config / C09_headers: for every history of setDevice/setStream/restart/encode calls on the encoder model every frame carries the configured ids, the message type of its messages, the batch version, and counters consecutive mod 65536 restarting at 1 after a reset; the reported counter is the last frame's. Proved by induction over the history with a fold invariant, no bound on history or batch. The model is tied to the code by the correspondence stream (exhaustive short histories, random long ones, a >65536-frame history).",
+    "C10": "Theorem C10_encode_any_state: encode reads only (device id, stream id, counter) of the encoder object, so the frames after any history equal a fresh encoder's frames shifted by the counter (simulation proof, all states, all batches). Tied to the code by encoding the same batch on a used and a fresh real encoder.",
+}
 
 
 def reg(spec):
@@ -36,10 +46,30 @@ def hdr_view(case, lines):
     return out
 
 
-reg(Spec("C09", "Frame headers carry consecutive counters and the encoder's identity", [], [], [], gen_enc.gen_c09, view=hdr_view,
+reg(Spec("C09", "Frame headers carry consecutive counters and the encoder's identity", ["AsamCmp.Props.C09"],
+         ["AsamCmp.C09_header_bytes", "AsamCmp.C09_encode", "AsamCmp.C09_config", "AsamCmp.C09_headers"], ["AsamCmp.Props.C09"], gen_enc.gen_c09, view=hdr_view,
          rule="exhaustive op sequences over a 7-letter alphabet, random 30-op histories, one history of > 65536 frames; view = first 8 bytes of every frame + reported counter"))
-reg(Spec("C10", "Encoder output does not depend on earlier encode calls", [], [], [], gen_enc.gen_c10, view=last_lines(6),
+reg(Spec("C10", "Encoder output does not depend on earlier encode calls", ["AsamCmp.Props.C10"],
+         ["AsamCmp.C10_encode_any_state", "AsamCmp.C10_history_independent", "AsamCmp.C10_same_shape"], ["AsamCmp.Props.C10"], gen_enc.gen_c10, view=last_lines(6),
          rule="history of 1..6 earlier encode calls, then the same batch on the used and on a fresh encoder"))
+
+
+reg(Spec("C02", "Decoding arbitrary bytes is memory-safe and terminates", [], [], [], gen_dec.gen_c02, view=gen_dec.structure_view,
+         predicate=gen_dec.pred_c02,
+         rule="well-formed frames of every kind truncated at every offset and with every length/type/flag field corrupted, TECMP frames of all message types, random byte strings, histories; inputs live in exact-size heap blocks freed before the packets are read back, the decoder is destroyed before the last read; view = packet count, payload length and validity, sanitizer verdict"))
+reg(Spec("C04", "Decoded packets report exactly what is on the wire", [], [], [], gen_dec.gen_c04,
+         rule="frames built from the protocol table: 0..8 messages of all kinds, consistent and inconsistent inner lengths, error flags, every truncation, zero padding, prior history"))
+reg(Spec("C05", "Segmented messages reassemble under any interleaving", [], [], [], gen_dec.gen_c05, predicate=gen_dec.pred_c05,
+         rule="1..4 endpoints sharing device or stream ids, 2..6 segments of sizes {0,1,odd,max}, start counters incl. 65534/65535, trailing bytes, seeded order-preserving shuffles; all interleavings of two 3-frame streams"))
+reg(Spec("C06", "Loss, duplication or reordering never yields a corrupted packet", [], [], [], gen_dec.gen_c06, predicate=gen_dec.pred_c06,
+         view=lambda c, l: l[-3:],
+         rule="encoder output under fault scripts: single faults (drop/dup/swap/corrupt version/corrupt type) and random fault sequences, clean tail for recovery"))
+reg(Spec("C15", "TECMP messages convert to equivalent ASAM CMP packets", [], [], [], gen_dec.gen_c15,
+         rule="TECMP frames from the layout table: CAN/CAN-FD/LIN of every data length, capture-module and bus status, all 256 message types, inconsistent lengths"))
+reg(Spec("C17", "Decoder keeps reassembly state only for messages in progress", [], [], [], gen_dec.gen_c17,
+         rule="exhaustive histories over {unseg, first, inter, last, invalid, header-only, unseg+inter, TECMP, short} x 2 endpoints x good/bad counter; random histories; pending table read after every frame"))
+reg(Spec("C18", "Endpoints are isolated from each other", [], [], [], gen_dec.gen_c18, predicate=gen_dec.pred_c18,
+         rule="arbitrary frame histories over 1..4 endpoints sharing device/stream ids, TECMP and short buffers mixed in; the same history projected per endpoint on separate decoders"))
 
 
 def replay(path):
